@@ -7,6 +7,7 @@ import (
 	"encoding/json"
 	"fmt"
 	"math/rand"
+	"net"
 	"os"
 	"testing"
 
@@ -22,7 +23,10 @@ type msgOp struct {
 	M    int    `json:"m,omitempty"`
 	C    int    `json:"c,omitempty"`
 	K    int    `json:"k,omitempty"`
-	Data []int  `json:"data,omitempty"` // decode input / add value / tid / key
+	Data []int  `json:"data,omitempty"` // decode input / add value / tid / key / text / ip / reason
+	Port int    `json:"port,omitempty"`
+	Code int    `json:"code,omitempty"`
+	List []int  `json:"list,omitempty"`
 }
 
 type msgVector struct {
@@ -108,6 +112,30 @@ func applyMsgOp(m *stun.Message, op msgOp) (perr string) {
 		}
 	case "fingerprint":
 		if err := stun.Fingerprint.AddTo(m); err != nil {
+			return "err:" + err.Error()
+		}
+	case "username":
+		if err := stun.Username(unints(op.Data)).AddTo(m); err != nil {
+			return "err:" + err.Error()
+		}
+	case "xoraddr":
+		if err := (stun.XORMappedAddress{IP: net.IP(unints(op.Data)), Port: op.Port}).AddTo(m); err != nil {
+			return "err:" + err.Error()
+		}
+	case "mapped":
+		if err := (&stun.MappedAddress{IP: net.IP(unints(op.Data)), Port: op.Port}).AddTo(m); err != nil {
+			return "err:" + err.Error()
+		}
+	case "errorcode":
+		if err := (stun.ErrorCodeAttribute{Code: stun.ErrorCode(op.Code), Reason: unints(op.Data)}).AddTo(m); err != nil {
+			return "err:" + err.Error()
+		}
+	case "unknown":
+		ua := make(stun.UnknownAttributes, len(op.List))
+		for i, t := range op.List {
+			ua[i] = stun.AttrType(t)
+		}
+		if err := ua.AddTo(m); err != nil {
 			return "err:" + err.Error()
 		}
 	case "writelength":
@@ -196,7 +224,7 @@ func TestVerifMsg(t *testing.T) {
 		}
 		for i := 0; i < n; i++ {
 			switch x := r.Intn(20); {
-			case x < 9:
+			case x < 7:
 				l := r.Intn(24)
 				if r.Intn(6) == 0 {
 					l = r.Intn(3001)
@@ -206,6 +234,25 @@ func TestVerifMsg(t *testing.T) {
 				}
 				size += 4 + (l+3)/4*4
 				v.Ops = append(v.Ops, msgOp{Op: "add", T: r.Intn(0x10000), Data: ints(randBytes(r, l))})
+			case x < 10:
+				// typed setters (their wire formats are C06's business; here: the struct stays equal to the wire)
+				switch r.Intn(5) {
+				case 0:
+					v.Ops = append(v.Ops, msgOp{Op: "username", Data: ints(randBytes(r, r.Intn(520)))})
+				case 1:
+					v.Ops = append(v.Ops, msgOp{Op: "xoraddr", Data: ints(randBytes(r, []int{4, 16, 5}[r.Intn(3)])), Port: r.Intn(65536)})
+				case 2:
+					v.Ops = append(v.Ops, msgOp{Op: "mapped", Data: ints(randBytes(r, []int{4, 16, 0}[r.Intn(3)])), Port: r.Intn(65536)})
+				case 3:
+					v.Ops = append(v.Ops, msgOp{Op: "errorcode", Code: 300 + r.Intn(400), Data: ints(randBytes(r, r.Intn(30)))})
+				case 4:
+					l := make([]int, r.Intn(6))
+					for j := range l {
+						l[j] = r.Intn(65536)
+					}
+					v.Ops = append(v.Ops, msgOp{Op: "unknown", List: l})
+				}
+				size += 540
 			case x < 11:
 				v.Ops = append(v.Ops, msgOp{Op: "settype", M: r.Intn(4096), C: r.Intn(4)})
 			case x < 13:
